@@ -492,4 +492,40 @@ def runSeq (hooks : List Hook) (nTasks : Nat) : Env → List Req → List (List 
 def finalEnv (hooks : List Hook) (nTasks : Nat) (env : Env) (qs : List Req) : Env :=
   qs.foldl (fun e q => (step hooks nTasks e q).1) env
 
+/-! ### overlapping requests
+
+  Two requests issued by concurrent callers are executed one after the other (the
+  environment's transitionMutex spans TryTransition and TeardownEnvironment entirely): the
+  second waits for the mutex. What it does NOT wait with is its look-up of the environment
+  (`environments.Environment(id)` in RpcServer.ControlEnvironment, the first lines of
+  TeardownEnvironment): that happened when it arrived, i.e. BEFORE the first request
+  finished. `stepHeld listed` is a request whose look-up saw `listed`. -/
+
+def stepHeld (hooks : List Hook) (nTasks : Nat) (listed : Bool) (env : Env) : Req → Env × List Step × Result
+  | .try_ e b r => tryTransition env hooks e b r
+  | .control e b r => if !listed then (env, [], .notFound) else controlApi env hooks e b r
+  | .teardown f r1 r2 => if !listed then (env, [], .notFound) else teardown env hooks f r1 r2 nTasks
+
+/-- A request, or a pair of overlapping requests (the second arrived while the first was in progress). -/
+inductive PReq where
+  | one (q : Req)
+  | par (q1 q2 : Req)
+  deriving Repr, Inhabited
+
+def PReq.flat : PReq → List Req
+  | .one q => [q]
+  | .par a b => [a, b]
+
+/-- `runSeq` for request lists with overlapping pairs: one entry per request, in the order
+    in which they get the mutex. -/
+def runPar (hooks : List Hook) (nTasks : Nat) : Env → List PReq → List (List Step × Result × Env)
+  | _, [] => []
+  | env, .one q :: qs =>
+    let r := step hooks nTasks env q
+    (r.2.1, r.2.2, r.1) :: runPar hooks nTasks r.1 qs
+  | env, .par a b :: qs =>
+    let r1 := step hooks nTasks env a
+    let r2 := stepHeld hooks nTasks (!env.gone) r1.1 b
+    (r1.2.1, r1.2.2, r1.1) :: (r2.2.1, r2.2.2, r2.1) :: runPar hooks nTasks r2.1 qs
+
 end EnvM
